@@ -71,10 +71,15 @@ def ss(p):
     return "%s,%x" % (shex(p[0]), p[1])
 
 
-def helper_case(rng, fn):
-    """-> (request line, expected answer by the Z spec, non-trivial?)"""
-    if fn in ("lsint_lt_0", "sexp_lsint_fits_sint", "luint_from_lsint", "lsint_to_sint", "lsint_to_sint_hi", "lsint_negate", "lsint_is_fixnum"):
-        a = spair(rng)
+UN_S = ("lsint_lt_0", "sexp_lsint_fits_sint", "luint_from_lsint", "lsint_to_sint", "lsint_to_sint_hi", "lsint_negate", "lsint_is_fixnum")
+UN_U = ("sexp_luint_fits_uint", "lsint_from_luint", "luint_to_uint", "luint_to_uint_hi", "luint_is_fixnum")
+BIN_UU = ("luint_eq", "luint_lt", "luint_add", "luint_sub", "luint_and", "luint_div")
+BIN_UW = ("luint_add_uint", "luint_mul_uint", "luint_div_uint")
+
+
+def mk(fn, a, b=None):
+    """request, answer by the Z spec, non-trivial? — for explicit operands (None when outside the defined domain)"""
+    if fn in UN_S:
         v = U(a)
         exp = {"lsint_lt_0": lambda: "1" if v < 0 else "0",
                "sexp_lsint_fits_sint": lambda: "1" if -(1 << 63) <= v < (1 << 63) else "0",
@@ -82,25 +87,82 @@ def helper_case(rng, fn):
                "lsint_to_sint_hi": lambda: shex(v >> 64), "lsint_negate": lambda: fmts(-v),
                "lsint_is_fixnum": lambda: "1" if FIXMIN <= v <= FIXMAX else "0"}[fn]()
         return "%s %s" % (fn, ss(a)), exp, a[0] not in (0, -1) or fn in ("lsint_negate", "lsint_is_fixnum")
-    if fn in ("sexp_luint_fits_uint", "lsint_from_luint", "luint_to_uint", "luint_to_uint_hi", "luint_is_fixnum"):
-        a = upair(rng)
+    if fn in UN_U:
         v = U(a)
         exp = {"sexp_luint_fits_uint": lambda: "1" if v < M64 else "0", "lsint_from_luint": lambda: fmts(v),
                "luint_to_uint": lambda: "%x" % (v & MASK), "luint_to_uint_hi": lambda: "%x" % (v >> 64),
                "luint_is_fixnum": lambda: "1" if v <= FIXMAX else "0"}[fn]()
-        return "%s %s" % (fn, su(a)), exp, a[0] != 0
+        return "%s %s" % (fn, su(a)), exp, a[0] != 0 or fn == "luint_is_fixnum"
     if fn == "lsint_from_sint":
-        v = smod(rword(rng), 64)
-        return "%s %s" % (fn, shex(v)), fmts(v), v < 0
+        return "%s %s" % (fn, shex(a)), fmts(a), a < 0
     if fn == "luint_from_uint":
-        v = rword(rng)
-        return "%s %x" % (fn, v), fmtu(v), v != 0
+        return "%s %x" % (fn, a), fmtu(a), a != 0
     if fn in ("luint_shl", "luint_shr"):
-        a = upair(rng)
-        s = rng.choice(SHIFTS) if rng.random() < 0.7 else rng.randrange(128)
         v = U(a)
-        return "%s %s %x" % (fn, su(a), s), (fmtu(v << s) if fn == "luint_shl" else fmtu(v >> s)), s != 0 and v != 0
-    if fn in ("luint_eq", "luint_lt", "luint_add", "luint_sub", "luint_and", "luint_div"):
+        if not 0 <= b < 128:
+            return None
+        return "%s %s %x" % (fn, su(a), b), (fmtu(v << b) if fn == "luint_shl" else fmtu(v >> b)), b != 0 and v != 0
+    if fn in BIN_UU:
+        x, y = U(a), U(b)
+        if fn == "luint_div" and y == 0:
+            return None
+        exp = {"luint_eq": lambda: "1" if x == y else "0", "luint_lt": lambda: "1" if x < y else "0",
+               "luint_add": lambda: fmtu(x + y), "luint_sub": lambda: fmtu(x - y), "luint_and": lambda: fmtu(x & y),
+               "luint_div": lambda: fmtu(x // y)}[fn]()
+        return "%s %s %s" % (fn, su(a), su(b)), exp, (a[0] != 0 or b[0] != 0)
+    if fn in BIN_UW:
+        x = U(a)
+        if fn == "luint_div_uint" and b == 0:
+            return None
+        exp = {"luint_add_uint": lambda: fmtu(x + b), "luint_mul_uint": lambda: fmtu(x * b), "luint_div_uint": lambda: fmtu(x // b)}[fn]()
+        return "%s %s %x" % (fn, su(a), b), exp, a[0] != 0 or (x * b >= M64)
+    if fn == "lsint_mul_sint":
+        if b == -(1 << 63):
+            return None                   # -b is undefined in C for INT64_MIN (see signed_sites)
+        return "%s %s %s" % (fn, ss(a), shex(b)), fmts(U(a) * b), abs(U(a) * b) >= M64
+    raise KeyError(fn)
+
+
+HI_U = [0, 1, 2, 0x3fffffffffffffff, 0x4000000000000000, (1 << 63) - 1, 1 << 63, MASK - 1, MASK, 0xffffffff, 0x100000000]
+LO_B = [0, 1, 0xffffffff, 0x100000000, 0x3ffffffffffffffe, 0x3fffffffffffffff, 0x4000000000000000, 0x4000000000000001,
+        (1 << 63) - 1, 1 << 63, 0xbfffffffffffffff, 0xc000000000000000, 0xc000000000000001, MASK - 1, MASK]
+
+
+def lattice_cases(fn):
+    """deterministic boundary lattice, run before the random cases: every high word class x every low word class"""
+    out = []
+    if fn in UN_S or fn in UN_U:
+        his = [smod(h, 64) for h in HI_U] if fn in UN_S else HI_U
+        out = [mk(fn, (h, l)) for h in his for l in LO_B]
+    elif fn in ("lsint_from_sint", "luint_from_uint"):
+        out = [mk(fn, smod(w, 64) if fn == "lsint_from_sint" else w) for w in WORDS]
+    elif fn in ("luint_shl", "luint_shr"):
+        out = [mk(fn, (h, l), s) for h in (0, 1, 1 << 63, MASK, 0x5555555555555555) for l in (0, 1, 1 << 63, MASK, 0xaaaaaaaaaaaaaaaa) for s in SHIFTS]
+    elif fn in BIN_UU:
+        ps = [(h, l) for h in (0, 1, 0xffffffff, 1 << 63, MASK) for l in (0, 1, 0xffffffff, 0x100000000, 1 << 63, MASK)]
+        out = [mk(fn, a, b) for a in ps for b in ps]
+    elif fn in BIN_UW:
+        ps = [(h, l) for h in (0, 1, 0xffffffff, 1 << 63, MASK) for l in (0, 1, 0xffffffff, 0x100000000, 1 << 63, MASK)]
+        out = [mk(fn, a, w) for a in ps for w in (0, 1, 2, 0xffffffff, 0x100000000, 0x100000001, (1 << 63) - 1, 1 << 63, MASK)]
+    elif fn == "lsint_mul_sint":
+        ps = [(h, l) for h in (0, 1, -1, -2, (1 << 63) - 1, -(1 << 63)) for l in (0, 1, 0xffffffff, 1 << 63, MASK)]
+        out = [mk(fn, a, w) for a in ps for w in (0, 1, -1, 2, -2, 0xffffffff, -0x100000000, (1 << 62) - 1, -(1 << 62), (1 << 63) - 1, -(1 << 63) + 1)]
+    return [c for c in out if c is not None]
+
+
+def helper_case(rng, fn):
+    """-> (request line, expected answer by the Z spec, non-trivial?) with random / boundary operands"""
+    if fn in UN_S:
+        return mk(fn, spair(rng))
+    if fn in UN_U:
+        return mk(fn, upair(rng))
+    if fn == "lsint_from_sint":
+        return mk(fn, smod(rword(rng), 64))
+    if fn == "luint_from_uint":
+        return mk(fn, rword(rng))
+    if fn in ("luint_shl", "luint_shr"):
+        return mk(fn, upair(rng), rng.choice(SHIFTS) if rng.random() < 0.7 else rng.randrange(128))
+    if fn in BIN_UU:
         a, b = upair(rng), upair(rng)
         r = rng.random()
         if r < 0.15:
@@ -114,25 +176,19 @@ def helper_case(rng, fn):
                 b = (0, b[1]) if rng.random() < 0.6 else (b[0] >> rng.randrange(1, 64), b[1])
             if U(b) == 0:
                 b = (0, 3)
-        x, y = U(a), U(b)
-        exp = {"luint_eq": lambda: "1" if x == y else "0", "luint_lt": lambda: "1" if x < y else "0",
-               "luint_add": lambda: fmtu(x + y), "luint_sub": lambda: fmtu(x - y), "luint_and": lambda: fmtu(x & y),
-               "luint_div": lambda: fmtu(x // y)}[fn]()
-        return "%s %s %s" % (fn, su(a), su(b)), exp, (a[0] != 0 or b[0] != 0)
-    if fn in ("luint_add_uint", "luint_mul_uint", "luint_div_uint"):
+        return mk(fn, a, b)
+    if fn in BIN_UW:
         a, b = upair(rng), rword(rng)
         if fn == "luint_div_uint" and b == 0:
             b = 7
-        x = U(a)
-        exp = {"luint_add_uint": lambda: fmtu(x + b), "luint_mul_uint": lambda: fmtu(x * b), "luint_div_uint": lambda: fmtu(x // b)}[fn]()
-        return "%s %s %x" % (fn, su(a), b), exp, a[0] != 0 or (x * b >= M64)
+        return mk(fn, a, b)
     if fn == "lsint_mul_sint":
         a, b = spair(rng), smod(rword(rng), 64)
         if rng.random() < 0.5:            # the shape the callers produce: a fixnum-sized value times a fixnum
             a = ((-1, rword(rng) | (1 << 63)) if rng.random() < 0.5 else (0, rword(rng) >> 1))
         if b == -(1 << 63):
-            b += 1                       # -b is undefined in C for INT64_MIN (see signed_sites)
-        return "%s %s %s" % (fn, ss(a), shex(b)), fmts(U(a) * b), abs(U(a) * b) >= M64
+            b += 1
+        return mk(fn, a, b)
     raise KeyError(fn)
 
 
@@ -144,8 +200,7 @@ def _luint_part(ctx, d_custom, exe, sigs):
                      extra=["-DSEXP_USE_CUSTOM_LONG_LONGS=1"])
     reqs, exps, nts = [], [], []
     for fn in fns:
-        for _ in range(n):
-            q, e, nt = helper_case(rng, fn)
+        for q, e, nt in lattice_cases(fn) + [helper_case(rng, fn) for _ in range(n)]:
             reqs.append(q); exps.append(e); nts.append(nt)
     mo = ctx.run_model(exe, reqs)
     r = subprocess.run([emb], input="\n".join(reqs) + "\n", capture_output=True, text=True, env=B.chibi_env(d_custom), timeout=900)
@@ -231,8 +286,19 @@ def _arith_outer(ctx, d_default, d_custom):
             a = b * rng.choice(vals[:60]) + rng.choice([0, 1, -1])
         exprs.append(t.format(a=scm.hexlit(a), b=scm.hexlit(b)))
         meta.append((t, a, b))
-    od = scm.run_cases(d_default, exprs)
-    oc = scm.run_cases(d_custom, exprs)
+    def run_bounded(d):
+        # a build whose arithmetic is broken may loop: small chunks, short timeouts, give up after 3 dead cases
+        res, dead = [], 0
+        for lo in range(0, len(exprs), 250):
+            if dead >= 3:
+                res += [None] * len(exprs[lo:lo + 250])
+                continue
+            part = scm.run_cases(d, exprs[lo:lo + 250], timeout=(40 if not ctx.thorough else 120), chunk=250)
+            dead += sum(1 for x in part if x is None or x.startswith(("TIMEOUT", "CRASH")))
+            res += part
+        return res
+    od = run_bounded(d_default)
+    oc = run_bounded(d_custom)
     for e, (t, a, b), x, y in zip(exprs, meta, od, oc):
         big = abs(a) > FIXMAX or abs(b) > FIXMAX or abs(a * b) > FIXMAX
         ctx.count(1, key=("outerA", t, a, b), nontrivial=big)
@@ -249,6 +315,8 @@ def _arith_outer(ctx, d_default, d_custom):
                 if p is None or p[1] != v or (p[0] == "f") != (FIXMIN <= v <= FIXMAX):
                     return False
             return True
+        if x is None and y is None:
+            continue          # skipped after repeated dead cases (already reported)
         if not ok(y):
             if ok(x):
                 ctx.violation("customll-arith:" + t.split()[0].strip("("), input=e, expected=x, observed_customll=y, replay=replay,
@@ -484,7 +552,13 @@ def _run_file(d, text, name):
     with open(path, "w") as fh:
         fh.write(text)
     try:
-        r = B.run_chibi(d, [path], timeout=600)
+        try:
+            r = B.run_chibi(d, [path], timeout=300)
+        except subprocess.TimeoutExpired as e:
+            class R: pass
+            r = R()
+            r.stdout = e.stdout.decode() if isinstance(e.stdout, bytes) else (e.stdout or "")
+            r.stderr, r.returncode = "timeout after 300 s", "TIMEOUT"
     finally:
         os.unlink(path)
     return r
